@@ -63,6 +63,17 @@ CLAIMED = {
               "kernels; each case is executed and every caller cell (argument base storages, every tensor defining the operator) is compared "
               "by _version and bits; the operator must still densify to the same matrix."),
         design="5/C13", note="TLC 1.8; torch's _version counter; harness/checks/c13.py argument builders"),
+    "C15": dict(
+        engine="E1-denote-replay",
+        technique="TLA+ dispatch table (torch function -> abstract action) checked against the live registration tables by TLC; TLC-enumerated calls replayed in both operand orders",
+        text=("spec/MC_C15.tla holds the dispatch table of the specification (27 first-argument entries, 9 second-argument entries); the live "
+              "_HANDLED_FUNCTIONS / _HANDLED_SECOND_ARG_FUNCTIONS tables are extracted at check time and TLC checks TableComplete (nothing the "
+              "property lists has been unregistered) and TableKnown (no live entry unknown to the spec - coverage gap, exit 2). TLC enumerates "
+              "entry x 33 classes x batch x operand kind with the exact expected dense result (LOAlgebra); the replay calls torch.f(op, ...), "
+              "torch.f(tensor, op), tensor <binop> op and the method and compares each (factorizations / solves relationally against the exact "
+              "matrix); 7 unregistered torch functions must raise NotImplementedError; a NotImplementedError from torch.f is accepted only when "
+              "the method itself declares the operation unsupported."),
+        design="5/C15"),
     "C16": dict(
         engine="E3-history-machines",
         technique="TLA+ retry-loop state machine (ideal per-member minimal jitter vs implementation-shaped loop) model checked by TLC; terminal behaviours replayed, cholesky_ex attempts trace-validated",
